@@ -43,6 +43,7 @@ inductive Op
   | cfg (c : Cfg) (s0 t0 : Int)
   | connect | msgIn (m : InMsg) | garbage | arrive (m : InMsg) | pop
   | timeout (e : TimerEv) | disc | stop | send (f : Fields) | flush | stime (w : String)
+  | rtime (now : Int)
   deriving Inhabited
 
 structure Event where
@@ -130,6 +131,8 @@ structure M where
   cbLoggedOn : Bool := false
   afterLogoutCb : Bool := false
   sentResetOnConn : Bool := false    -- C07: we wrote a Logon carrying 141=Y on the current connection
+  lastRtime : Option Int := none     -- C07: the clock of the previous CheckResetTime call (ResetSeqTime configured)
+  ourResetPending : Bool := false    -- C07: our own reset Logon is out and no Logon has been received since
   -- C04 / C20
   fromLogonGap : Bool := false
   hb : Int := 0
@@ -142,6 +145,7 @@ structure M where
 def opName : Op → String
   | .cfg .. => "cfg" | .connect => "connect" | .msgIn _ => "in" | .garbage => "garbage" | .arrive _ => "arrive" | .pop => "pop"
   | .timeout _ => "timeout" | .disc => "disc" | .stop => "stop" | .send _ => "send" | .flush => "flush" | .stime _ => "stime"
+  | .rtime _ => "rtime"
 
 /-- the inbound message this event processed first, if any -/
 def inboundOf (ms : M) : Op → Option InMsg
@@ -311,15 +315,15 @@ def c06 (ms : M) (e : Event) : List String :=
     let v := viewOf cfg m
     let k := kindOf m
     let mySeq := (fget m.f 34).getD "-"
-    -- callbacks about THIS message (stash drains deliver other numbers)
-    -- … and only those before the expected number first moves: what is delivered after this message has been
-    -- consumed (answered with a Reject and counted) comes from the stash, possibly under the same number
-    let early := e.items.takeWhile fun i => match i with
+    -- callbacks about THIS message: its own callback precedes everything the message itself causes (its Reject, its advance
+    -- of the expected number); callbacks after the first advance of the event belong to messages drained from the stash
+    -- (which may carry the very number of a message that has just been rejected and consumed)
+    let own := e.items.takeWhile fun i => match i with
       | .store ["incT"] => false
       | .store ("setT" :: _) => false
       | _ => true
-    let reached := early.any fun i => match i with
-      | .fromApp s _ => s == mySeq
+    let reached := own.any fun i => match i with
+      | .fromApp s _ => s == mySeq && !isAdminKind k      -- (FromApp is never about an administrative message: a stash drain)
       | .fromAdmin kk s => kk != "A" && s == mySeq && kk == k
       | .onLogon => k == "A"
       | _ => false
@@ -369,13 +373,14 @@ def c06 (ms : M) (e : Event) : List String :=
         (if kinds == ["3"] && rejTag "34" then [] else ["C06.reaction_wrong{defect=field34}"])
       else []
     -- shape of Rejects that answer this message
-    -- (only what is written before this message is counted: later Rejects answer messages from the stash)
-    let shape : List String := (wires (dropOldWires prev.q early)).flatMap fun (kk, _, f) =>
-      -- (a stored Reject re-sent inside a replay, PossDupFlag=Y, answers an older message)
+    -- (a replayed Reject — 43=Y — answers an older message; while a message with the same number waits in the stash a Reject
+    --  quoting that number may answer the stashed one, drained within this event: not judged)
+    let shape : List String := ws.flatMap fun (kk, _, f) =>
       if !(kk == "3" || kk == "j") || fget f 43 == some "Y" then [] else
       match v.seq with
       | none => []
       | some n =>
+        if prev.stash.contains n then [] else
         if fget f 45 != some (toString n) then
           (if (fget f 45).isNone then ["C06.reject_without_refseq"] else [])      -- a Reject for a drained message quotes that one
         else
@@ -395,6 +400,7 @@ def c07 (ms : M) (e : Event) : List String :=
   let prev := ms.prev
   let resets := e.items.filter fun i => match i with | .store ["reset"] => true | _ => false
   let inb := inboundOf ms e.op
+  let accepted0 := e.items.contains .onLogon
   let inKind := (inb.map kindOf).getD ""
   let drained := ms.inbox.any fun m => kindOf m == "A" || kindOf m == "5"
   let logonWithFlagIn := (inb.map fun m => kindOf m == "A" && fget m.f 141 == some "Y").getD false
@@ -402,7 +408,13 @@ def c07 (ms : M) (e : Event) : List String :=
   let logonWithFlagOut := (wires e.items).any (fun (k, _, f) => k == "A" && fget f 141 == some "Y")
                           || (e.items.any fun i => match i with | .store ("save" :: _ :: "A" :: _) => true | _ => false) && cfg.bs ≥ 1
   let disconnects := (!stConnected e.after.st && stConnected prev.st) || e.items.contains .closed || e.after.status == "nottime"
+  -- ResetSeqTime: the reset instant of the day lies in (previous check, this check] and there is a connection
+  let rtCrossed : Bool := match e.op, cfg.resetSeqTime, ms.lastRtime with
+    | .rtime now, some rs, some last => stConnected prev.st && crossedReset rs last now
+    | _, _, _ => false
+  let isRtime : Bool := match e.op with | .rtime _ => true | _ => false
   let justified :=
+    if isRtime then rtCrossed else
     logonWithFlagIn || logonWithFlagOut
     || (cfg.resetOnLogon && ((match e.op with | .connect => true | _ => false) || inKind == "A" || drained))
     || (cfg.resetOnLogout && (inKind == "5" || drained))
@@ -411,7 +423,27 @@ def c07 (ms : M) (e : Event) : List String :=
   let badReset := if !resets.isEmpty && !justified then ["C07.unjustified_reset{op=" ++ opName e.op ++ "}"] else []
   -- FIX.4.0 has no ResetSeqNumFlag
   let echoOfPeer := (inb.map fun m => kindOf m == "A" && fget m.f 141 == some "Y").getD false
-  let bad40 := if cfg.bs == 0 && !echoOfPeer && (wires e.items).any (fun (k, _, f) => k == "A" && (fget f 141).isSome) then ["C07.reset_flag_in_fix40"] else []
+  let bad40 := if cfg.bs == 0 && !echoOfPeer && (wires e.items).any (fun (k, _, f) => k == "A" && (fget f 141).isSome)
+               then ["C07.reset_flag_in_fix40" ++ (if isRtime then "{op=rtime}" else "")] else []
+  -- ResetSeqTime applies (crossing while logged on): store reset, our Logon is number 1 and carries 141=Y, and the
+  -- counters are as after numbering from 1 with that Logon as outbound 1
+  let badRtime : List String :=
+    if !isRtime then [] else
+    if rtCrossed && stLoggedOn prev.st then
+      (if !resets.isEmpty && (wires e.items).any (fun (k, sq, f) => k == "A" && sq == "1" && fget f 141 == some "Y")
+          && e.after.S == 2 && e.after.T == 1 then [] else ["C07.reset_time_not_applied"])
+    else if !rtCrossed then
+      -- no crossing / no connection / first call / not configured: nothing is sent, the store is not touched
+      (if (wires e.items).isEmpty && !(e.items.any fun i => match i with | .store _ => true | _ => false)
+          && e.after.S == prev.S && e.after.T == prev.T then [] else ["C07.reset_time_spurious"])
+    else []
+  -- the echo of our own reset Logon must not reset again (anchor `sentReset`)
+  let badEchoReset := match inb with
+    | some m =>
+      if kindOf m == "A" && fget m.f 141 == some "Y" && ms.ourResetPending && accepted0 && (viewOf cfg m).clean && !resets.isEmpty
+         && !(cfg.resetOnLogon && !cfg.initiator)
+      then ["C07.echo_of_own_reset_resets_again{role=" ++ (if cfg.initiator then "initiator" else "acceptor") ++ "}"] else []
+    | none => []
   -- the reply to an accepted reset Logon is number 1 and echoes the flag
   let accepted := e.items.contains .onLogon
   let badEcho := match inb with
@@ -462,7 +494,7 @@ def c07 (ms : M) (e : Event) : List String :=
   let badDiscReset :=
     if cfg.resetOnDisconnect && stConnected prev.st && !stConnected e.after.st
        && (resets.isEmpty || e.after.S != 1 || e.after.T != 1) then ["C07.reset_on_disconnect_missing"] else []
-  badReset ++ bad40 ++ badEcho ++ badHonour ++ badBack ++ badSeqReset ++ badS ++ badLogoutReset ++ badDiscReset
+  badReset ++ bad40 ++ badRtime ++ badEchoReset ++ badEcho ++ badHonour ++ badBack ++ badSeqReset ++ badS ++ badLogoutReset ++ badDiscReset
 
 /-! ## C08: the shape of a connection -/
 
@@ -664,6 +696,18 @@ def monitorStep (ms : M) (e : Event) : M × List String :=
       sentResetOnConn :=
         (match e.op with | .connect => (if e.after.status == "ok" then false else ms.sentResetOnConn) | _ => ms.sentResetOnConn)
         || (wires e.items).any (fun w => w.1 == "A" && fget w.2.2 141 == some "Y"),
+      lastRtime := (match e.op with
+        | .rtime now => if ms.cfg.resetSeqTime.isSome then some now else ms.lastRtime
+        | _ => ms.lastRtime),
+      ourResetPending :=
+        (let wroteReset := (wires e.items).any (fun w => w.1 == "A" && fget w.2.2 141 == some "Y")
+         let gotLogon := match inboundOf ms e.op with | some m => kindOf m == "A" | none => false
+         let isConnect := match e.op with | .connect => true | _ => false
+         if !stConnected e.after.st then false
+         else if gotLogon then false
+         else if wroteReset then true
+         else if isConnect then false
+         else ms.ourResetPending),
       fromLogonGap := if ms.prev.st == "Logon" && inRecovery e.after.st then true
                       else if !inRecovery e.after.st then false else ms.fromLogonGap,
       hb := hb', inbox := inbox', stored := storedAfter ms e }
